@@ -84,7 +84,7 @@ CHECKS.update({
 CHECKS.update({
     "C13": dict(engine="reqgrammar+tlsstack", ref="§5 C13, §4 E6, §10.3",
         technique="grammar-based property testing of the public client layers and the real connection builder with the wire captured; oracle = statement-derived expectations on request target, Host header, version, stripped headers and protocol selection",
-        text="Requests from a grammar (schemes, hosts incl. IPv4/IPv6, ports, paths, queries, URI forms, methods incl. CONNECT, all versions, pre-set headers) crossed with connection outcomes (request version x ALPN) go through SetHostHeader/Http2Checks/Http1Checks over a stub connection, through ConnectionPoolService (pooled/unpooled) and ConnectorService with stub collaborators, and through the real HttpConnectionBuilder + RequestExecutor with the bytes captured: preface iff HTTP/2 requested or ALPN h2; HTTP/1 target, Host (caller's preserved) and HTTP/2 header stripping / CONNECT rejection as stated. The full-stack TLS leg (engine tlsstack) checks the version the real TLS server's handler observes against requested version x negotiated ALPN.",
+        text="Requests from a grammar (schemes, hosts incl. IPv4/IPv6, ports, paths, queries, URI forms, methods incl. CONNECT, all versions, pre-set headers) crossed with connection outcomes (request version x ALPN) go through SetHostHeader/Http2Checks/Http1Checks over a stub connection, through ConnectionPoolService (pooled/unpooled) and ConnectorService with stub collaborators, and through the real HttpConnectionBuilder + RequestExecutor with the bytes captured: preface iff HTTP/2 requested or ALPN h2; HTTP/1 target, Host (caller's preserved) and HTTP/2 header stripping / CONNECT rejection as stated. The full-stack TLS leg (engine tlsstack) checks the version the real TLS server's handler observes against requested version x negotiated ALPN (h2, http/1.1, h3, none, conflict).",
         note="Trusted base: the http crate decides which requests are well-typed; hyper serialises the final http::Request (target compared via to_string and, in the wire leg, parsed from the captured bytes); for schemes without a default port either Host form is accepted."),
     "C17": dict(engine="reqgrammar+tlswire", ref="§5 C17, §4 E6/E5",
         technique="grammar-based robustness testing with a process-wide panic hook and catch_unwind: any panic located in the library (caller task or spawned task) is a violation; debug assertions on",
@@ -131,7 +131,7 @@ NOT_YET = {
 CHECKS.update({
     "C12": dict(engine="tlswire+tlsstack", ref="§5 C12, §4 E5, §10.3",
         technique="property-based testing with fault injection at the TLS peer: generated (scheme, host form, port, peer behaviour, ALPN, client TLS) combinations through the real TlsTransport with the client's wire recorded; oracle = TLS record framing of every byte, absence of a secret token, outcome vs certificate validity, SNI seen by the peer",
-        text="For https/wss with a client TLS configuration every byte put on the wire must parse as TLS records and never contain the application secret; a stream is only returned after a handshake with a peer whose (fixture) certificate is valid for the URI host and the SNI offered equals that host; mismatching, untrusted, plaintext, closing, truncating and silent peers yield an error or nothing, never a stream; other schemes pass bytes verbatim; no syntactically valid host panics. The full-stack leg (engine tlsstack) runs the whole client (pool, connector, TlsTransport, HTTP/1 and HTTP/2) against a real TLS Server: request secrets in path/header/body never appear in the recorded client bytes, every byte is TLS-framed, and the server's certificate resolver sees SNI = URI host.",
+        text="For https/wss with a client TLS configuration every byte put on the wire must parse as TLS records and never contain the application secret; a stream is only returned after a handshake with a peer whose (fixture) certificate is valid for the URI host and the SNI offered equals that host; mismatching, untrusted, plaintext, closing, truncating and silent peers yield an error or nothing, never a stream; other schemes pass bytes verbatim; no syntactically valid host panics. The full-stack leg (engine tlsstack) runs the whole client (pool, connector, TlsTransport, HTTP/1 and HTTP/2) against a real TLS Server: request secrets in path/header/body never appear in the recorded client bytes, every byte is TLS-framed, and the server's certificate resolver sees SNI = URI host; the client is built with the TLS setting made before or after the builder calls that rebuild it.",
         note="Trusted base: rustls on both ends, the committed 100-year fixture certificates and the system clock inside their validity; ALPN offers without overlap are accepted either way."),
 })
 NOT_YET = {}
